@@ -1012,3 +1012,438 @@ Definition written (ch : choices) (im : image) : option (list comp_coefs) :=
   end.
 
 Definition t81_emit (ch : choices) (im : image) : option (list Z) := option_map emit_stream (layout ch im).
+
+(* ============================================== quantization tables in effect === *)
+(* B.2.4.1: a table stays defined until redefined; the decoder uses, for each component,
+   the table at destination Tq_i that is current when the component's (first) scan starts.
+   Result: per frame component, Q in NATURAL order. *)
+Record qstate := { qs_tabs : list (option (list Z)); qs_fc : list fcomp; qs_latched : list (Z * list Z) }.
+Definition qs0 : qstate := {| qs_tabs := repeat None 4; qs_fc := []; qs_latched := [] |}.
+
+Fixpoint assocZ {A} (l : list (Z * A)) (k : Z) : option A :=
+  match l with [] => None | (k', v) :: t => if k =? k' then Some v else assocZ t k end.
+
+Definition q_step (st : qstate) (s : segment) : option qstate :=
+  match s with
+  | SegDQT tabs =>
+      Some {| qs_tabs := fold_left (fun q (t : qtab) => let '(_, tq, v) := t in set_nth (Z.to_nat tq) (Some v) q) tabs (qs_tabs st);
+              qs_fc := qs_fc st; qs_latched := qs_latched st |}
+  | SegSOF _ _ _ _ comps => Some {| qs_tabs := qs_tabs st; qs_fc := comps; qs_latched := qs_latched st |}
+  | SegSOS sc _ _ _ _ _ _ =>
+      let step (acc : option (list (Z * list Z))) (c : scomp) :=
+        match acc with
+        | None => None
+        | Some l =>
+          let '(cs, _, _) := c in
+          match assocZ l cs with
+          | Some _ => Some l
+          | None =>
+            match find_comp (qs_fc st) cs O with
+            | Some (_, (_, _, _, tq)) =>
+                match nth (Z.to_nat tq) (qs_tabs st) None with Some q => Some (l ++ [(cs, q)]) | None => None end
+            | None => None
+            end
+          end
+        end in
+      match fold_left step sc (Some (qs_latched st)) with
+      | Some l => Some {| qs_tabs := qs_tabs st; qs_fc := qs_fc st; qs_latched := l |}
+      | None => None
+      end
+  | _ => Some st
+  end.
+
+Fixpoint q_walk (st : qstate) (segs : list (nat * segment)) : option qstate :=
+  match segs with
+  | [] => Some st
+  | (_, s) :: t => match q_step st s with Some st' => q_walk st' t | None => None end
+  end.
+
+Definition t81_qtables (s : stream) : option (list (list Z)) :=
+  match q_walk qs0 (st_segs s) with
+  | None => None
+  | Some st => map_opt (fun c : fcomp => let '(ci, _, _, _) := c in option_map to_natural (assocZ (qs_latched st) ci)) (qs_fc st)
+  end.
+
+(* ==================================================== Annex H: lossless (SOF3) === *)
+(* Spatial prediction (Table H.1), differences modulo 2^16 coded as Huffman category
+   SSSS in 0..16 plus SSSS extra bits (none for 16: DIFF = 32768), point transform Pt,
+   H.1.2.1 prediction at the start of a scan / restart interval, data unit = 1 sample.
+   No theorems about this part: it is used only in the correspondence (->). *)
+From Coq Require Import FMapPositive.
+Module PM := PositiveMap.
+
+Definition lget (m : PM.t Z) (w r c : Z) : Z :=
+  match PM.find (Z.to_pos (r * w + c + 1)) m with Some v => v | None => 0 end.
+Definition lset (m : PM.t Z) (w r c v : Z) : PM.t Z := PM.add (Z.to_pos (r * w + c + 1)) v m.
+
+Definition predict (psv ra rb rc : Z) : Z :=
+  if psv =? 1 then ra else if psv =? 2 then rb else if psv =? 3 then rc
+  else if psv =? 4 then ra + rb - rc
+  else if psv =? 5 then ra + (rb - rc) / 2
+  else if psv =? 6 then rb + (ra - rc) / 2
+  else (ra + rb) / 2.
+
+(* sample dimensions: A.1.1 with data unit 1 *)
+Definition comp_ws (g : geom) (h : Z) : Z := cdiv (g_x g * h) (g_hmax g).
+Definition comp_hs (g : geom) (v : Z) : Z := cdiv (g_y g * v) (g_vmax g).
+Definition lmcu_cols (g : geom) : Z := cdiv (g_x g) (g_hmax g).
+Definition lmcu_rows (g : geom) : Z := cdiv (g_y g) (g_vmax g).
+
+(* MCUs of a lossless scan, each a list of (scan comp index, row, col) *)
+Definition lscan_mcus (g : geom) (hv : list (Z * Z)) : list (list (nat * Z * Z)) :=
+  match hv with
+  | [(h, v)] => flat_map (fun r => map (fun c => [(O, r, c)]) (zrange (comp_ws g h))) (zrange (comp_hs g v))
+  | _ =>
+      flat_map (fun mr => map (fun mc =>
+        flat_map (fun jhv : nat * (Z * Z) => let '(j, (h, v)) := jhv in
+          flat_map (fun dv => map (fun dh => (j, mr * v + dv, mc * h + dh)) (zrange h)) (zrange v))
+          (combine (seq 0 (length hv)) hv)) (zrange (lmcu_cols g))) (zrange (lmcu_rows g))
+  end.
+Definition lscan_w (g : geom) (hv : list (Z * Z)) (h : Z) : Z :=
+  match hv with [_] => comp_ws g h | _ => lmcu_cols g * h end.
+
+(* one difference: F.16 DECODE of SSSS, then RECEIVE/EXTEND (H.2) *)
+Definition dec_diff (c : hcoder) (bs : list bool) : option (Z * list bool) :=
+  match hc_dec c bs with
+  | None => None
+  | Some (t, r) => if t =? 16 then Some (32768, r) else if t >? 16 then None else recv_ext t r
+  end.
+
+(* arrays : per scan component, (width, map) ; row0 : per scan component first row of the interval *)
+Fixpoint ldec_samples (cs : list hcoder) (ws : list Z) (psv p pt : Z) (row0 : list Z)
+         (pos : list (nat * Z * Z)) (arrs : list (PM.t Z)) (bs : list bool)
+  : option (list (PM.t Z) * list bool) :=
+  match pos with
+  | [] => Some (arrs, bs)
+  | (j, r, c) :: t =>
+    let m := nth j arrs (PM.empty Z) in let w := nth j ws 1 in
+    let px := if r =? nth j row0 0 then (if c =? 0 then 2 ^ (p - pt - 1) else lget m w r (c - 1))
+              else if c =? 0 then lget m w (r - 1) c
+              else predict psv (lget m w r (c - 1)) (lget m w (r - 1) c) (lget m w (r - 1) (c - 1)) in
+    match dec_diff (nth j cs none_coder) bs with
+    | None => None
+    | Some (d, rest) => ldec_samples cs ws psv p pt row0 t (set_nth j (lset m w r c ((px + d) mod 65536)) arrs) rest
+    end
+  end.
+
+(* intervals: list of MCU lists; the first row of an interval for component j is the row of
+   the first position of that component in the interval *)
+Definition first_rows (ncomp : nat) (pos : list (nat * Z * Z)) : list Z :=
+  map (fun j => match find (fun p : nat * Z * Z => let '(j', _, _) := p in Nat.eqb j j') pos with
+                | Some (_, r, _) => r | None => 0 end) (seq 0 ncomp).
+
+Fixpoint ldec_intervals (cs : list hcoder) (ws : list Z) (psv p pt : Z) (ncomp : nat)
+         (ivs : list (list (nat * Z * Z))) (ds : list (list Z)) (arrs : list (PM.t Z)) : option (list (PM.t Z)) :=
+  match ivs, ds with
+  | [], [] => Some arrs
+  | pos :: it, d :: dt =>
+    match ldec_samples cs ws psv p pt (first_rows ncomp pos) pos arrs (unpack d) with
+    | Some (arrs', r) =>
+        if (length r <? 8)%nat && forallb (fun b => b) r then ldec_intervals cs ws psv p pt ncomp it dt arrs' else None
+    | None => None
+    end
+  | _, _ => None
+  end.
+
+Record lstate := {
+  ls_sof : option (Z * Z * Z * list fcomp);            (* P, Y, X, comps *)
+  ls_dc : list (option hcoder); ls_ri : Z;
+  ls_out : list (nat * Z * PM.t Z)                      (* frame comp index, array width, samples *)
+}.
+Definition ls0 : lstate := {| ls_sof := None; ls_dc := repeat None 4; ls_ri := 0; ls_out := [] |}.
+
+Definition l_step (st : lstate) (s : segment) : option lstate :=
+  match s with
+  | SegDHT tabs =>
+      if forallb htab_code_ok tabs then
+        Some {| ls_sof := ls_sof st; ls_dc := install tabs 0 (ls_dc st); ls_ri := ls_ri st; ls_out := ls_out st |}
+      else None
+  | SegDRI ri => Some {| ls_sof := ls_sof st; ls_dc := ls_dc st; ls_ri := ri; ls_out := ls_out st |}
+  | SegSOF n p y x comps =>
+      if n =? 3 then Some {| ls_sof := Some (p, y, x, comps); ls_dc := ls_dc st; ls_ri := ls_ri st; ls_out := ls_out st |}
+      else None
+  | SegSOS sc ss se ah al first rest =>
+      match ls_sof st with
+      | None => None
+      | Some (p, y, x, fc) =>
+        match scan_info fc sc with
+        | None => None
+        | Some info =>
+          let g := geom_of y x fc in
+          let hv := map (fun i : nat * Z * Z * Z * Z => let '(_, h, v, _, _) := i in (h, v)) info in
+          let cs := map (fun i : nat * Z * Z * Z * Z => let '(_, _, _, td, _) := i in get_coder (ls_dc st) td) info in
+          let ws := map (fun q : Z * Z => lscan_w g hv (fst q)) hv in
+          let mcus := lscan_mcus g hv in
+          (* H.1.2.1: the restart interval is a multiple of the MCUs in a line *)
+          let per_line := match hv with [(h, _)] => comp_ws g h | _ => lmcu_cols g end in
+          if negb (ls_ri st mod per_line =? 0) then None else
+          let ivs := map (fun l => concat l) (intervals (ls_ri st) mcus) in
+          match ldec_intervals cs ws ss p al (length sc) ivs (first :: map snd rest)
+                               (repeat (PM.empty Z) (length sc)) with
+          | None => None
+          | Some arrs =>
+            Some {| ls_sof := ls_sof st; ls_dc := ls_dc st; ls_ri := ls_ri st;
+                    ls_out := ls_out st ++
+                      map (fun ja : (nat * Z * Z * Z * Z) * (Z * PM.t Z) =>
+                             let '((i, _, _, _, _), (w, m)) := ja in (i, w, m)) (combine info (combine ws arrs)) |}
+          end
+        end
+      end
+  | _ => Some st
+  end.
+
+Fixpoint l_walk (st : lstate) (segs : list (nat * segment)) : option lstate :=
+  match segs with
+  | [] => Some st
+  | (_, s) :: t => match l_step st s with Some st' => l_walk st' t | None => None end
+  end.
+
+(* per frame component: width, height, samples (raster, after the inverse point transform) *)
+Definition t81_decode_lossless (s : stream) : option (list (Z * Z * list Z)) :=
+  match l_walk ls0 (st_segs s) with
+  | None => None
+  | Some st =>
+    match ls_sof st with
+    | None => None
+    | Some (p, y, x, fc) =>
+      let g := geom_of y x fc in
+      let pt := fold_left (fun acc fs => match snd fs with SegSOS _ _ _ _ al _ _ => al | _ => acc end) (st_segs s) 0 in
+      map_opt (fun ic : nat * fcomp =>
+                 let '(i, (_, h, v, _)) := ic in
+                 match find (fun o : nat * Z * PM.t Z => let '(i', _, _) := o in Nat.eqb i i') (ls_out st) with
+                 | None => None
+                 | Some (_, w, m) =>
+                     Some (comp_ws g h, comp_hs g v,
+                           flat_map (fun r => map (fun c => lget m w r c * 2 ^ pt) (zrange (comp_ws g h))) (zrange (comp_hs g v)))
+                 end)
+              (combine (seq 0 (length fc)) fc)
+    end
+  end.
+
+(* ======================================= Annex G: progressive DCT, Huffman (SOF2) === *)
+(* G.1.2: DC first / refinement scans, AC first scans with EOBn runs, AC successive
+   approximation refinement with correction bits.  Coefficients of the whole frame are
+   kept per component in a map keyed by (block, zig-zag index).  No theorems about this
+   part: it is used only in the correspondence (->). *)
+Definition pkey (w r c k : Z) : positive := Z.to_pos ((r * w + c) * 64 + k + 1).
+Definition pget (m : PM.t Z) (w r c k : Z) : Z := match PM.find (pkey w r c k) m with Some v => v | None => 0 end.
+Definition pset (m : PM.t Z) (w r c k v : Z) : PM.t Z := PM.add (pkey w r c k) v m.
+
+Definition read_bit (bs : list bool) : option (Z * list bool) :=
+  match bs with b :: r => Some (b2z b, r) | [] => None end.
+
+(* G.1.2.2 Figure G.3-like: AC first scan of one block, band k..se *)
+Fixpoint pac_first (fuel : nat) (ac : hcoder) (m : PM.t Z) (w r c se al k : Z) (bs : list bool)
+  : option (PM.t Z * Z * list bool) :=          (* map, EOBRUN left after this block, bits *)
+  if k >? se then Some (m, 0, bs) else
+  match fuel with O => None | S f =>
+    match hc_dec ac bs with
+    | None => None
+    | Some (rs, r1) =>
+      let ssss := rs mod 16 in let rrrr := rs / 16 in
+      if ssss =? 0 then
+        if rrrr =? 15 then (if k + 16 >? se then None else pac_first f ac m w r c se al (k + 16) r1)
+        else match receive (Z.to_nat rrrr) 0 r1 with
+             | None => None
+             | Some (extra, r2) => Some (m, 2 ^ rrrr + extra - 1, r2)      (* EOBn: this block is the first of the run *)
+             end
+      else
+        if k + rrrr >? se then None else
+        match recv_ext ssss r1 with
+        | None => None
+        | Some (v, r2) => pac_first f ac (pset m w r c (k + rrrr) (v * 2 ^ al)) w r c se al (k + rrrr + 1) r2
+        end
+    end
+  end.
+
+(* correction bits for the already non-zero coefficients k..se (rest of band / EOB run) *)
+Fixpoint pcorrect (fuel : nat) (m : PM.t Z) (w r c se p1 k : Z) (bs : list bool) : option (PM.t Z * list bool) :=
+  if k >? se then Some (m, bs) else
+  match fuel with O => None | S f =>
+    let v := pget m w r c k in
+    if v =? 0 then pcorrect f m w r c se p1 (k + 1) bs
+    else match read_bit bs with
+         | None => None
+         | Some (b, r1) =>
+             pcorrect f (if b =? 1 then pset m w r c k (if v >=? 0 then v + p1 else v - p1) else m) w r c se p1 (k + 1) r1
+         end
+  end.
+
+(* skip rcnt zero-history coefficients, correcting the non-zero ones on the way;
+   stops AT the (rcnt+1)-th zero-history coefficient (true) or past the band (false) *)
+Fixpoint padvance (fuel : nat) (m : PM.t Z) (w r c se p1 k rcnt : Z) (bs : list bool)
+  : option (PM.t Z * Z * bool * list bool) :=
+  if k >? se then Some (m, k, false, bs) else
+  match fuel with O => None | S f =>
+    let v := pget m w r c k in
+    if v =? 0 then
+      if rcnt =? 0 then Some (m, k, true, bs) else padvance f m w r c se p1 (k + 1) (rcnt - 1) bs
+    else match read_bit bs with
+         | None => None
+         | Some (b, r1) =>
+             padvance f (if b =? 1 then pset m w r c k (if v >=? 0 then v + p1 else v - p1) else m) w r c se p1 (k + 1) rcnt r1
+         end
+  end.
+
+(* G.1.2.3: AC refinement scan of one block (EOBRUN = 0 on entry) *)
+Fixpoint pac_refine (fuel : nat) (ac : hcoder) (m : PM.t Z) (w r c se p1 k : Z) (bs : list bool)
+  : option (PM.t Z * Z * list bool) :=
+  if k >? se then Some (m, 0, bs) else
+  match fuel with O => None | S f =>
+    match hc_dec ac bs with
+    | None => None
+    | Some (rs, r1) =>
+      let ssss := rs mod 16 in let rrrr := rs / 16 in
+      if (ssss =? 0) && negb (rrrr =? 15) then
+        match receive (Z.to_nat rrrr) 0 r1 with
+        | None => None
+        | Some (extra, r2) =>
+          match pcorrect 64 m w r c se p1 k r2 with
+          | Some (m', r3) => Some (m', 2 ^ rrrr + extra - 1, r3)
+          | None => None
+          end
+        end
+      else if ssss >? 1 then None
+      else
+        match (if ssss =? 1 then read_bit r1 else Some (0, r1)) with
+        | None => None
+        | Some (sign, r2) =>
+          match padvance 64 m w r c se p1 k rrrr r2 with
+          | None => None
+          | Some (m', k', reached, r3) =>
+            if negb reached then None
+            else pac_refine f ac (if ssss =? 1 then pset m' w r c k' (if sign =? 1 then p1 else - p1) else m')
+                            w r c se p1 (k' + 1) r3
+          end
+        end
+    end
+  end.
+
+Record pscan := { ps_ss : Z; ps_se : Z; ps_ah : Z; ps_al : Z }.
+
+(* blocks of one restart interval; st = (arrays per scan comp, preds, eobrun) *)
+Fixpoint pdec_blocks (sp : pscan) (cs : coders) (ws : list Z) (pos : list (nat * Z * Z))
+         (arrs : list (PM.t Z)) (preds : list Z) (eobrun : Z) (bs : list bool)
+  : option (list (PM.t Z) * list bool) :=
+  match pos with
+  | [] => if eobrun =? 0 then Some (arrs, bs) else None      (* an EOB run may not cross the interval end *)
+  | (j, r, c) :: t =>
+    let m := nth j arrs (PM.empty Z) in let w := nth j ws 1 in
+    let '(dc, ac) := coder_at cs j in
+    if ps_ss sp =? 0 then
+      if ps_ah sp =? 0 then
+        match hc_dec dc bs with
+        | None => None
+        | Some (cat, r1) =>
+          match recv_ext cat r1 with
+          | None => None
+          | Some (diff, r2) =>
+            let p := nth j preds 0 + diff in
+            pdec_blocks sp cs ws t (set_nth j (pset m w r c 0 (p * 2 ^ ps_al sp)) arrs) (set_nth j p preds) 0 r2
+          end
+        end
+      else
+        match read_bit bs with
+        | None => None
+        | Some (b, r1) =>
+          pdec_blocks sp cs ws t (set_nth j (pset m w r c 0 (pget m w r c 0 + b * 2 ^ ps_al sp)) arrs) preds 0 r1
+        end
+    else
+      if eobrun >? 0 then
+        if ps_ah sp =? 0 then pdec_blocks sp cs ws t arrs preds (eobrun - 1) bs
+        else match pcorrect 64 m w r c (ps_se sp) (2 ^ ps_al sp) (ps_ss sp) bs with
+             | None => None
+             | Some (m', r1) => pdec_blocks sp cs ws t (set_nth j m' arrs) preds (eobrun - 1) r1
+             end
+      else
+        match (if ps_ah sp =? 0 then pac_first 64 ac m w r c (ps_se sp) (ps_al sp) (ps_ss sp) bs
+               else pac_refine 64 ac m w r c (ps_se sp) (2 ^ ps_al sp) (ps_ss sp) bs) with
+        | None => None
+        | Some (m', run, r1) => pdec_blocks sp cs ws t (set_nth j m' arrs) preds run r1
+        end
+  end.
+
+Fixpoint pdec_intervals (sp : pscan) (cs : coders) (ws : list Z) (ncomp : nat)
+         (ivs : list (list (nat * Z * Z))) (ds : list (list Z)) (arrs : list (PM.t Z)) : option (list (PM.t Z)) :=
+  match ivs, ds with
+  | [], [] => Some arrs
+  | pos :: it, d :: dt =>
+    match pdec_blocks sp cs ws pos arrs (repeat 0 ncomp) 0 (unpack d) with
+    | Some (arrs', r) =>
+        if (length r <? 8)%nat && forallb (fun b => b) r then pdec_intervals sp cs ws ncomp it dt arrs' else None
+    | None => None
+    end
+  | _, _ => None
+  end.
+
+Record pstate := {
+  pp_sof : option (Z * Z * Z * list fcomp);
+  pp_dc : list (option hcoder); pp_ac : list (option hcoder); pp_ri : Z;
+  pp_arr : list (PM.t Z)                                (* per FRAME component, width mcu_cols * H *)
+}.
+Definition pp0 : pstate := {| pp_sof := None; pp_dc := repeat None 4; pp_ac := repeat None 4; pp_ri := 0; pp_arr := [] |}.
+
+Definition p_step (st : pstate) (s : segment) : option pstate :=
+  match s with
+  | SegDHT tabs =>
+      if forallb htab_code_ok tabs then
+        Some {| pp_sof := pp_sof st; pp_dc := install tabs 0 (pp_dc st); pp_ac := install tabs 1 (pp_ac st);
+                pp_ri := pp_ri st; pp_arr := pp_arr st |}
+      else None
+  | SegDRI ri => Some {| pp_sof := pp_sof st; pp_dc := pp_dc st; pp_ac := pp_ac st; pp_ri := ri; pp_arr := pp_arr st |}
+  | SegSOF n p y x comps =>
+      if n =? 2 then Some {| pp_sof := Some (p, y, x, comps); pp_dc := pp_dc st; pp_ac := pp_ac st; pp_ri := pp_ri st;
+                             pp_arr := repeat (PM.empty Z) (length comps) |}
+      else None
+  | SegSOS sc ss se ah al first rest =>
+      match pp_sof st with
+      | None => None
+      | Some (p, y, x, fc) =>
+        match scan_info fc sc with
+        | None => None
+        | Some info =>
+          let g := geom_of y x fc in
+          let hv := map (fun i : nat * Z * Z * Z * Z => let '(_, h, v, _, _) := i in (h, v)) info in
+          let cs := map (fun i : nat * Z * Z * Z * Z => let '(_, _, _, td, ta) := i in
+                           (get_coder (pp_dc st) td, get_coder (pp_ac st) ta)) info in
+          let ws := map (fun q : Z * Z => mcu_cols g * fst q) hv in
+          let pos := scan_positions g hv in
+          let ivs := intervals (pp_ri st * blocks_per_mcu hv) pos in
+          let arrs := map (fun i : nat * Z * Z * Z * Z => let '(fi, _, _, _, _) := i in nth fi (pp_arr st) (PM.empty Z)) info in
+          match pdec_intervals {| ps_ss := ss; ps_se := se; ps_ah := ah; ps_al := al |} cs ws (length sc) ivs
+                               (first :: map snd rest) arrs with
+          | None => None
+          | Some arrs' =>
+            Some {| pp_sof := pp_sof st; pp_dc := pp_dc st; pp_ac := pp_ac st; pp_ri := pp_ri st;
+                    pp_arr := fold_left (fun a (ia : (nat * Z * Z * Z * Z) * PM.t Z) =>
+                                           let '((fi, _, _, _, _), m) := ia in set_nth fi m a)
+                                        (combine info arrs') (pp_arr st) |}
+          end
+        end
+      end
+  | _ => Some st
+  end.
+
+Fixpoint p_walk (st : pstate) (segs : list (nat * segment)) : option pstate :=
+  match segs with
+  | [] => Some st
+  | (_, s) :: t => match p_step st s with Some st' => p_walk st' t | None => None end
+  end.
+
+Definition t81_decode_progressive (s : stream) : option (list comp_coefs) :=
+  match p_walk pp0 (st_segs s) with
+  | None => None
+  | Some st =>
+    match pp_sof st with
+    | None => None
+    | Some (p, y, x, fc) =>
+      let g := geom_of y x fc in
+      Some (map (fun ic : nat * fcomp =>
+                   let '(i, (_, h, v, _)) := ic in
+                   let m := nth i (pp_arr st) (PM.empty Z) in let w := mcu_cols g * h in
+                   (comp_wb g h, comp_hb g v,
+                    flat_map (fun r => map (fun c => to_natural (map (fun k => pget m w r c k) (zrange 64)))
+                                           (zrange (comp_wb g h))) (zrange (comp_hb g v))))
+                (combine (seq 0 (length fc)) fc))
+    end
+  end.
